@@ -631,8 +631,7 @@ fn check_encode_inner(u: &Universe, st: &State, last: &str, extra: Option<&Extra
                     if c == "ValidationFailure" || !adm.contains(c) {
                         let detail = match &e {
                             EncodeError::ValidationFailure { source } => {
-                                let m = source.message().to_string();
-                                let m: String = m.chars().map(|ch| if ch.is_ascii_alphabetic() { ch } else { '-' }).take(48).collect();
+                                let m = mc_core::msg_class(source.message());
                                 format!("[{m}]")
                             }
                             _ => String::new(),
